@@ -3228,7 +3228,20 @@ func (r *Resolver) verifyDNSSEC(ctx context.Context, signer, signed string, resp
 		return false, fmt.Errorf("DS RR set empty")
 	}
 
-	unsupportedOnly, err := dnssec.VerifyDSWithWork(keys, parentdsRR, r.dnssecWork(ctx))
+	// The keys a signature in resp may come from. For anything but the
+	// DNSKEY RRset that is every key of the zone: the RRset they arrived in
+	// was validated on its own way in. The DNSKEY RRset itself has nothing
+	// behind it but the parent's DS, so only a key the DS authenticates can
+	// sign it — otherwise an on-path attacker appends a key of their own,
+	// signs the RRset with it, and every signature made with that key
+	// validates from then on.
+	sigKeys := keys
+	var unsupportedOnly bool
+	if msg == resp {
+		sigKeys, unsupportedOnly, err = dnssec.VerifyDSKeysWithWork(keys, parentdsRR, r.dnssecWork(ctx))
+	} else {
+		unsupportedOnly, err = dnssec.VerifyDSWithWork(keys, parentdsRR, r.dnssecWork(ctx))
+	}
 	if err != nil {
 		zlog.Debug("DNSSEC DS verify failed", "signer", signer, "signed", signed, "error", err.Error(), "unsupported only", unsupportedOnly)
 		if unsupportedOnly {
@@ -3245,7 +3258,7 @@ func (r *Resolver) verifyDNSSEC(ctx context.Context, signer, signed string, resp
 		return false, nil
 	}
 
-	if ok, err = dnssec.VerifyRRSIGWithWork(signer, keys, resp, r.dnssecWork(ctx)); err != nil {
+	if ok, err = dnssec.VerifyRRSIGWithWork(signer, sigKeys, resp, r.dnssecWork(ctx)); err != nil {
 		return
 	}
 
